@@ -1,0 +1,40 @@
+//go:build verif
+
+package policy
+
+// Contracts for the deductive verifier in /verif (govc). Comment-only file.
+
+// sem(stmt, node): the four-valued outcome of one statement on a node
+// (0 true, 1 false, 2 no data, 3 optional no data), defined by the contract of matchStatement.
+//@ ghost func sem(s Statement, n ipld.Node) int
+//@ pure func passes(r int) bool = r == 0 || r == 3
+//@ pure func ppasses(r int) bool = r != 1
+//@
+//@ pure func policyOK(p Policy, n ipld.Node) bool =
+//@     forall j int :: 0 <= j && j < len(p) ==> passes(sem(p[j], n))
+//@ pure func policyPartialOK(p Policy, n ipld.Node) bool =
+//@     forall j int :: 0 <= j && j < len(p) ==> ppasses(sem(p[j], n))
+//@
+//@ func (Policy).Match
+//@   requires forall j int :: 0 <= j && j < len(p) ==> p[j] != nil
+//@   ensures [C03,C05,C11] all: result0 == policyOK(p, node)
+//@   ensures [C09] leaf: !result0 ==> result1 != nil
+//@   assigns [C20] nothing
+//@   loop 0: invariant 0 <= k && k <= len(p)
+//@           invariant forall j int :: 0 <= j && j < k ==> passes(sem(p[j], node))
+//@           decreases len(p) - k
+//@
+//@ func (Policy).PartialMatch
+//@   requires forall j int :: 0 <= j && j < len(p) ==> p[j] != nil
+//@   ensures [C11] all: result0 == policyPartialOK(p, node)
+//@   assigns [C20] nothing
+//@   loop 0: invariant 0 <= k && k <= len(p)
+//@           invariant forall j int :: 0 <= j && j < k ==> ppasses(sem(p[j], node))
+//@           decreases len(p) - k
+//@
+//@ func matchStatement
+//@   trusted
+//@   requires cur != nil
+//@   ensures result0 == sem(cur, node)
+//@   ensures (result0 == 1 || result0 == 2) ==> leafMost != nil
+//@   ensures 0 <= result0 && result0 <= 3
